@@ -4,7 +4,8 @@ import pyref, corr_parse, gen_scripts, factory_scenarios
 from sievelib.parser import Parser
 
 RULE = ("sequences of 2–6 scripts (valid generated, single-edit invalid, truncated mid-construct, differing requires) through ONE reused "
-        "Parser with fresh Parsers and FiltersSet scenarios interleaved; every outcome compared with the history-free model and, for a "
+        "Parser with fresh Parsers and FiltersSet scenarios interleaved; systematically, every token prefix of scripts using each stateful "
+        "parser feature, followed by each of 11 tail tokens, then 4 probe scripts on the same Parser; every outcome compared with the history-free model and, for a "
         "sample, with a pristine interpreter; factory scenarios compared with their pristine-interpreter output after each history; "
         "non-trivial = step ≥ 2 of a sequence")
 
@@ -93,6 +94,30 @@ def run(ctx):
                                  "what": "FiltersSet scenario %r differs from the pristine interpreter: %r vs %r" % (bad[0][0], bad[0][1:3], bad[1][1:3])})
         if s < 3:
             samples.append([t.decode("latin-1") for t in seq])
+    # systematic part: a parse that FAILS at every possible point of scripts using every stateful parser feature (argument
+    # re-assignment / lexer rewind, require, brackets, lists, multi-line text, comments), followed on the same Parser by probes
+    BASES = [b'require "imap4flags"; if hasflag "\\\\Seen" { keep; }', b'require "imap4flags"; if anyof (hasflag "x", hasflag ["a","b"]) { keep; }',
+             b'require "imap4flags"; if not hasflag "v" "f" { stop; }', b'require ["fileinto","copy"]; fileinto :copy "a"; # c\n',
+             b'if allof (true, not false) { keep; } else { stop; }', b'require "vacation"; vacation :days 3 text:\nx\n.\n;',
+             b'if header :comparator "i;octet" ["a","b"] "c" { /* c */ keep; }', b'require "imap4flags"; addflag ["a","b"]; keep :flags "x";']
+    TAILS = [b"", b"{", b",", b")", b";", b"}", b"(", b"]", b'"s"', b":tag", b"foo"]
+    PROBES = [b"# first\nkeep;", b'require "fileinto"; fileinto "a";', b"if true { keep; }", b"keep;"]
+    probe_alone = {q: pyref.parse_answer(q, parser=Parser()) for q in PROBES}
+    for base in BASES:
+        toks = [x for x in base.replace(b"(", b" ( ").replace(b")", b" ) ").replace(b",", b" , ").replace(b";", b" ; ").split(b" ") if x]
+        for k in range(1, len(toks) + 1):
+            for tail in TAILS:
+                first = b" ".join(toks[:k] + ([tail] if tail else []))
+                for q in PROBES:
+                    p = Parser()
+                    a1 = pyref.parse_answer(first, parser=p)
+                    a = pyref.parse_answer(q, parser=p)
+                    evals += 1
+                    nontriv += 1
+                    if a != probe_alone[q]:
+                        viol.append({"history_hex": [first.hex()], "history": [first.decode("latin-1")], "input_hex": q.hex(), "input": q.decode("latin-1"),
+                                     "what": "outcome depends on history: after %r (%s) the probe gives %s, alone %s" % (
+                                         first.decode("latin-1")[-60:], a1[:40], a[:100], probe_alone[q][:100])})
     # pristine-interpreter comparison for a sample of scripts (guards the in-process reference itself)
     sample = r.sample(pool, 25 if ctx.tier == "quick" else 200)
     pr = pristine_parse(sample)
